@@ -147,10 +147,25 @@ func c04Check(cs c04Case) (kind, detail string) {
 				return "operand-modified", fmt.Sprintf("evaluating %s changed the node graph of the document:\n%s", expr, firstDiff(before, after))
 			}
 		}
+		// identity: merging with an empty map reads as the operand itself reads
+		for _, l := range []string{"x", "y"} {
+			e := fmt.Sprintf("[(.%s *%s {}), .%s]", l, cs.Flags, l)
+			parsed, perr, ppan := impl.Parse(e)
+			if perr != nil || ppan != nil {
+				continue
+			}
+			res, eerr, epan := impl.Eval(parsed, root)
+			if eerr != nil || epan != nil || len(res) != 1 {
+				continue
+			}
+			if v := impl.ToV(res[0]); len(v.Vals) == 2 && v.Vals[0].String() != v.Vals[1].String() {
+				return "identity", fmt.Sprintf("(.%s *%s {}) reads %s but .%s reads %s", l, cs.Flags, v.Vals[0].String(), l, v.Vals[1].String())
+			}
+		}
 		// frame: what the right operand does not mention reads in the result as it reads in the left operand
 		// (documents whose sharing is by merge key only: an alias *is* the anchored node, so writing one of the two writes the other)
 		for _, dir := range [][2]string{{"x", "y"}, {"y", "x"}} {
-			if !strings.Contains(cs.Docs[0], "<<:") {
+			if !strings.Contains(cs.Docs[0], "<<:") && !strings.Contains(cs.Docs[0], "#frame") {
 				break
 			}
 			l, r := dir[0], dir[1]
@@ -277,7 +292,7 @@ func c04Run(c *fw.Ctx) error {
 			maps = append(maps, fromJSONText(h))
 		}
 	}
-	c.Res.Bound = fmt.Sprintf("all ordered pairs of %d maps (<= %d nodes, depth <= 3, keys a b c, leaves null 1 \"s\" and sequences) x 16 flag subsets (binary form on operands under keys, root form on whole documents (literal right operand; two documents evaluated together; quick: maps of <= 2 nodes and the hand-written deeper shapes), operand immutability, identities); 7 hand-written documents whose operands hold anchors, aliases and merge keys x 16 flag subsets x 4 expressions (node graph unchanged; keys the other operand does not mention read the same in the result); reduce form: all pairs and triples of %d maps (<= %d nodes) x 16 flags", len(maps), n, len(small), sn)
+	c.Res.Bound = fmt.Sprintf("all ordered pairs of %d maps (<= %d nodes, depth <= 3, keys a b c, leaves null 1 \"s\" and sequences) x 16 flag subsets (binary form on operands under keys, root form on whole documents (literal right operand; two documents evaluated together; quick: maps of <= 2 nodes and the hand-written deeper shapes), operand immutability, identities); 9 hand-written documents whose operands hold anchors, aliases, merge keys and anchor names defined again x 16 flag subsets x 4 expressions (node graph unchanged; merging with {} reads as the operand; keys the other operand does not mention read the same in the result); reduce form: all pairs and triples of %d maps (<= %d nodes) x 16 flags", len(maps), n, len(small), sn)
 	var idx int64
 	emit := func(cs c04Case, order int64) {
 		kind, detail := c04Check(cs)
@@ -328,6 +343,9 @@ func c04Run(c *fw.Ctx) error {
 		"x: {a: &s [1, 2], b: *s}\ny: {a: [0], b: [3]}\n",
 		"x: {a: &m {k: 1}, b: *m, c: {d: *m}}\ny: {b: {k: 2, n: 3}, c: {d: {k: 4}}}\n",
 		"x: {l: [&e {k: 1}, *e]}\ny: {l: [{k: 2}, {j: 3}]}\n",
+		// an anchor name defined again: an alias means the latest definition in front of it (#frame: the operands share no key)
+		"x: {p: &a {k: 1}, q: *a, r: &a {k: 2}, s: *a} #frame\ny: {t: 5}\n",
+		"x: {p: &a [1], q: *a, r: {u: &a [2], v: *a}} #frame\ny: {t: {p: 1}}\n",
 		// the anchor lies outside the operand
 		"m: &m {k: 1}\nx: {b: *m}\ny: {b: {k: 2, n: 3}}\n",
 		"s: &s [1, 2]\nx: {b: *s}\ny: {b: [3]}\n",
